@@ -65,7 +65,7 @@ pub struct Built {
     pub desc: Value,
 }
 
-fn fake_bytes(rng: &mut Rng, kind: &str, why: &str, pad: usize) -> Vec<u8> {
+fn fake_bytes(rng: &mut Rng, kind: &str, why: &str, pad: usize, big: &[PoolStream]) -> Vec<u8> {
     // a signature followed by bytes built to make the probe fail for a stated reason;
     // the bytes after the signature contain no further signature start
     let mut v: Vec<u8> = match (kind, why) {
@@ -107,6 +107,29 @@ fn fake_bytes(rng: &mut Rng, kind: &str, why: &str, pad: usize) -> Vec<u8> {
             gen::png_chunk(b"IDAT", &gen::junk(rng, n))
         }
         ("idat", "nolength") => b"IDAT".to_vec(),
+        ("idat", "zero-chunk") => {
+            // a real stream in IDAT chunks with an empty chunk in the middle
+            let ps = &big[rng.below(big.len() as u64) as usize];
+            let z = gen::wrap_zlib(&ps.stream, &ps.plain, 1);
+            let cut = z.len() / 2;
+            let mut c = gen::png_chunk(b"IDAT", &z[..cut]);
+            c.extend_from_slice(&gen::png_chunk(b"IDAT", &[]));
+            c.extend_from_slice(&gen::png_chunk(b"IDAT", &z[cut..]));
+            c
+        }
+        ("idat", "gap") => {
+            // bytes between the last DEFLATE block and the adler32
+            let ps = &big[rng.below(big.len() as u64) as usize];
+            let mut z = gen::ZLIB_HEADERS[1].to_vec();
+            z.extend_from_slice(&ps.stream);
+            let ngap = 1 + rng.below(3) as usize;
+            z.extend_from_slice(&gen::junk(rng, ngap));
+            z.extend_from_slice(&gen::adler32(&ps.plain).to_be_bytes());
+            let half = z.len() / 2;
+            let mut c = gen::png_chunk(b"IDAT", &z[..half]);
+            c.extend_from_slice(&gen::png_chunk(b"IDAT", &z[half..]));
+            c
+        }
         ("idat", _) => {
             let mut c = gen::png_chunk(b"IDAT", &gen::junk(rng, 40));
             c.truncate(c.len() - 3);
@@ -141,7 +164,12 @@ pub fn build_file(segs: &Value, big: &[PoolStream], small: &[PoolStream], rng: &
         match s["c"].as_str().unwrap() {
             "junk" => bytes.extend_from_slice(&gen::junk(rng, s["n"].as_u64().unwrap() as usize)),
             "fake" => {
-                let f = fake_bytes(rng, s["k"].as_str().unwrap(), s["why"].as_str().unwrap_or(""), s["pad"].as_u64().unwrap_or(0) as usize);
+                let why = s["why"].as_str().unwrap_or("");
+                let f = fake_bytes(rng, s["k"].as_str().unwrap(), why, s["pad"].as_u64().unwrap_or(0) as usize, big);
+                if why == "zero-chunk" || why == "gap" {
+                    // parts of the damaged run may be found as plain zlib streams: no exact prediction
+                    exact = false;
+                }
                 bytes.extend_from_slice(&f);
             }
             "overlap" => {
@@ -432,7 +460,7 @@ fn random_segs(rng: &mut Rng) -> Value {
                 let why = match k {
                     "gzip" => *rng.pick(&["method", "fextra-past-eof", "block"]),
                     "zip" => *rng.pick(&["signature", "method", "extra-past-eof", "block"]),
-                    "idat" => *rng.pick(&["crc", "short", "nolength", "truncated"]),
+                    "idat" => *rng.pick(&["crc", "short", "nolength", "truncated", "zero-chunk", "gap", "zero-chunk", "gap"]),
                     _ => "block",
                 };
                 segs.push(json!({"c":"fake","k":k,"why":why,"pad":rng.below(6)}));
